@@ -654,5 +654,39 @@ class Desc(C.Stream):
                         yield c
 
 
+# ---- the declaration path: parametrized variants (one callback, one fixture signature) running concurrently -----------------
+from props._declrun import DeclRunStream, DECLRUN_TRUSTED, DECLRUN_RULE, normalise_project
+from props import _declrun_corpus as DC
+from props._decl import DECL_TRUSTED
+
+
+class DeclRun(DeclRunStream):
+    """schedule-independent projects DECLARED as classes — runs of tests as ONE parametrized declaration whose variants use
+    test / suite / session fixtures and are held at gates while their siblings start — N threads against one thread"""
+    name = "C05.declrun"
+    prop = "C05"
+    profile = "independent"
+    oracles = ("C05",)
+    threads = (2, 2, 3, 4, 8)
+    strategies = ("fifo", "lifo", "random", "random")
+    quick_cases = 120
+    quick_seconds = 16
+    thorough_cases = 2000
+    thorough_seconds = 300
+    decl_opts = dict(p_group=0.75, p_base=0.3, p_shared=0.2)
+    corpus = DC.C05_CORPUS
+    p_start_gates = 0.35
+
+    def prepare_project(self, project, rng=None):
+        return normalise_project(distinct_ranks(project))
+
+
+LEAN_MODULES = LEAN_MODULES + ["LccModel.Props.C05Decl"]
+PROPS_FILES = PROPS_FILES + ["LccModel/Props/C05Decl.lean"]
+NAMESPACES = dict(NAMESPACES, **{"LccModel/Props/C05Decl.lean": "LccModel.C05Decl"})
+TRUSTED_BASE = TRUSTED_BASE + DECL_TRUSTED + DECLRUN_TRUSTED
+RULE = RULE + "; " + DECLRUN_RULE
+
+
 def streams(ctx):
-    return [Run(), Sched(), Desc()]
+    return [Run(), Sched(), Desc(), DeclRun()]
